@@ -19,7 +19,7 @@ Lemma pstep_base : forall P e, base (fst (pstep P e)) = run (base P) (ptrace P e
 Proof.
   intros P e. unfold pstep, pstep_gen. pose proof (run_flag_run (ptrace P e) (base P)) as H.
   destruct (run_flag (base P) (ptrace P e)) as [S' d]. simpl in H. subst S'.
-  destruct e as [t | i j s | i j s adv | i dead | ev]; try reflexivity.
+  destruct e as [t | i j s | i j s adv | i dead | i j s | ev]; try reflexivity.
   - simpl. destruct (getr (base P) i) as [ri|]; [|reflexivity].
     destruct (i =? j) eqn:E.
     + rewrite orb_true_r. reflexivity.
@@ -214,7 +214,7 @@ Theorem change_bumps_seq : forall div P e i, actor e = Some i ->
 Proof.
   intros div P e i Ha. unfold pstep_gen.
   destruct (run_flag (base P) (ptrace P e)) as [S' d] eqn:R.
-  destruct e as [t | a b s | a b s adv | a dead | ev]; simpl in Ha; try discriminate.
+  destruct e as [t | a b s | a b s adv | a dead | a b s | ev]; simpl in Ha; try discriminate.
   - inversion Ha; subst a. simpl. destruct d; [rewrite sget_sset, N.eqb_refl|]; reflexivity.
   - inversion Ha; subst a. simpl. destruct d; [rewrite sget_sset, N.eqb_refl|]; reflexivity.
   - destruct ev as [a b | a b adv | a b adv | a b | a b | a | a]; simpl in Ha; try discriminate; inversion Ha; subst a.
@@ -285,3 +285,85 @@ Definition ex_restart (div : N) : list (node * (N * node)) * N * N :=
                              PBase (RouterUp 2); PBase (NbrUp 2 1)] in
   let P3 := honest_data div (honest_sync div P2 1 2) 1 2 in
   (match getr (base P3) 1 with Some r => rib_entries (rrib r) | None => [] end, old, sget 2 (myseq P3)).
+
+(* ------------------------------------------------------------------------------------------ *)
+(* failed fetches                                                                             *)
+(* ------------------------------------------------------------------------------------------ *)
+(* a failed advertisement fetch (NACK because the route to the neighbour is not registered yet, timeout, ...) changes
+   nothing: the announced sequence number stays recorded and the fetch stays outstanding *)
+Theorem fetch_fail_changes_nothing : forall P i j s, pstep P (PFetchFail i j s) = (P, false).
+Proof. intros. unfold pstep, pstep_gen. simpl. reflexivity. Qed.
+
+(* a Sync Interest with a new sequence number (or from a new neighbour) leaves a fetch for it outstanding *)
+Theorem sync_starts_fetch : forall P i j s ri,
+  getr (base P) i = Some ri -> i <> j -> (~ In j (nbrs ri) \/ pget (i, j) (nseq P) < s) ->
+  pget (i, j) (fetching (fst (pstep P (PSync i j s)))) = s.
+Proof.
+  intros P i j s ri Gi Hij H. unfold pstep, pstep_gen.
+  destruct (run_flag (base P) (ptrace P (PSync i j s))) as [S' d].
+  rewrite Gi. assert (E : (i =? j) = false) by lia. rewrite E.
+  destruct (memN j (nbrs ri)) eqn:M; cbn [fst fetching].
+  - destruct H as [H | H]; [apply memN_In in M; contradiction|].
+    assert (E2 : (s <=? pget (i, j) (nseq P)) = false) by lia. rewrite E2.
+    rewrite pget_pset, pk_eqb_refl. reflexivity.
+  - rewrite pget_pset, pk_eqb_refl. reflexivity.
+Qed.
+
+(* protocol events that can make router i process an advertisement of j *)
+Definition serves (i j : node) (e : pevent) : Prop :=
+  match e with
+  | PData a b _ _ => a = i /\ b = j
+  | PBase (Fetch a b) | PBase (Deliver a b _) => a = i /\ b = j
+  | _ => False
+  end.
+
+Lemma no_serve_no_xfer : forall P e i j, ~ serves i j e -> existsb (xfers (i, j)) (ptrace P e) = false.
+Proof.
+  intros P e i j Hn.
+  destruct e as [t | a b s | a b s adv | a dead | a b s | ev]; simpl.
+  - reflexivity.
+  - destruct (getr (base P) a) as [ra|]; [|reflexivity]. destruct (memN b (nbrs ra) || (a =? b)); reflexivity.
+  - destruct (getr (base P) a) as [ra|]; [|reflexivity].
+    destruct (memN b (nbrs ra) && (pget (a, b) (nseq P) =? s)); [|reflexivity].
+    simpl. unfold pair_eqb. simpl. rewrite orb_false_r.
+    destruct ((i =? a) && (j =? b)) eqn:E; [|reflexivity]. exfalso. apply Hn. simpl. lia.
+  - induction (victims P a dead) as [|v vs IH]; [reflexivity | exact IH].
+  - reflexivity.
+  - destruct ev as [a b | a b adv | a b adv | a b | a b | a | a]; simpl; try reflexivity.
+    + unfold pair_eqb. simpl. rewrite orb_false_r.
+      destruct ((i =? a) && (j =? b)) eqn:E; [|reflexivity]. exfalso. apply Hn. simpl. lia.
+    + unfold pair_eqb. simpl. rewrite orb_false_r.
+      destruct ((i =? a) && (j =? b)) eqn:E; [|reflexivity]. exfalso. apply Hn. simpl. lia.
+Qed.
+
+(* if, after a failed fetch, nothing ever makes i process an advertisement of j again (the fetch is not re-issued and
+   answered), the pair (i, j) is never served by the table-level trace ... *)
+Theorem unretried_fetch_never_served : forall evs P i j,
+  (forall e, In e evs -> ~ serves i j e) -> existsb (xfers (i, j)) (ptrace_all P evs) = false.
+Proof.
+  induction evs as [|e evs IH]; intros P i j H; [reflexivity|].
+  simpl. rewrite existsb_app. rewrite no_serve_no_xfer by (apply H; left; reflexivity).
+  apply IH. intros e' He'. apply H. right. exact He'.
+Qed.
+
+(* ... so no fair round can be completed: the premise of dv_protocol_self_stabilises REQUIRES that a failed fetch towards
+   a current neighbour is eventually re-issued and answered (fetch_eventually_retried) *)
+Theorem fair_rounds_need_fetch_retry : forall g P evs i j,
+  In j (nb g i) -> around g (base P) (ptrace_all P evs) -> exists e, In e evs /\ serves i j e.
+Proof.
+  intros g P evs i j He [_ Hc].
+  specialize (Hc i j He).
+  (* decidable: search the list *)
+  assert (D : forall e, {serves i j e} + {~ serves i j e}).
+  { intros e. destruct e as [t | a b s | a b s adv | a dead | a b s | ev]; simpl; try (right; tauto).
+    - destruct (N.eq_dec a i), (N.eq_dec b j); [left; auto | right; tauto | right; tauto | right; tauto].
+    - destruct ev as [a b | a b adv | a b adv | a b | a b | a | a]; simpl; try (right; tauto);
+        destruct (N.eq_dec a i), (N.eq_dec b j); try (left; auto; fail); right; tauto. }
+  assert (Ex : (exists e, In e evs /\ serves i j e) \/ (forall e, In e evs -> ~ serves i j e)).
+  { clear Hc. induction evs as [|e evs IH]; [right; intros e []|].
+    destruct (D e) as [Hs | Hn]; [left; exists e; split; [left; reflexivity | exact Hs]|].
+    destruct IH as [(e' & Hin & Hs) | Hall]; [left; exists e'; split; [right; exact Hin | exact Hs]|].
+    right. intros e' [<- | Hin]; [exact Hn | apply Hall; exact Hin]. }
+  destruct Ex as [H | H]; [exact H|].
+  rewrite (unretried_fetch_never_served evs P i j H) in Hc. discriminate.
+Qed.
